@@ -275,7 +275,7 @@ func c02Check(r *vkit.Run, in c02Input) {
 				have[k] = v
 			}
 			for k, v := range in.Ctrs[src].refLabels(fmt.Sprintf("id%d", src)) {
-				if have[k] != v {
+				if hv, present := have[k]; !present || hv != v {
 					fail(fmt.Sprintf("line %q carries %s=%q, its container has %s=%q", line, k, have[k], k, v), "")
 					return
 				}
